@@ -145,4 +145,60 @@ def runConn (c : Conn) : List Msg → Conn × List Step
     let rest := runConn r.1 ms
     (rest.1, r.2 :: rest.2)
 
+/-! ## listeners that halt events  (what the handlers' callers in revent answer)
+
+Every handler of `DefaultOpenFlowHandlers` and every `handle_OFPST_*` raises its event twice: on the nexus
+(`e = con.ofnexus.raiseEventNoErrors(…)`) and then, `if e is None or e.halt != True`, on the connection.  What the nexus-level
+listeners answer is an INPUT of the handler: `Halts` says, for one message, whether a nexus-level listener halted the
+`RawStatsReply` of the message (`raw`), the aggregated event the message completes (`agg`), the `PortStatus` /
+`FeaturesReceived` of a port message (`port`).  Listeners that raise, unsubscribe or just return are `false` (the raise
+returns `None` or an event whose `halt` is not `True`).  Connection-level listeners answer to nobody: the second raise is the
+last thing each handler does with the event.
+
+`deliverL` follows the statements of the handlers in their order:
+* `handle_STATS_REPLY` :176-181 — raw event on the nexus; unless halted, on the connection; THEN, whatever the answer was,
+  `con._incoming_stats_reply(msg)`, whose handler (:68-111) raises the aggregated event on the nexus and, unless halted, on
+  the connection;
+* `handle_PORT_STATUS` :183-190 / `handle_FEATURES_REPLY` :245-258 — the view is updated BEFORE the event is raised on either
+  level, so it does not depend on any answer. -/
+
+structure Halts where
+  raw : Bool
+  agg : Bool
+  port : Bool
+  deriving DecidableEq, Repr
+
+/-- what one message raises, per level -/
+structure StepL where
+  rawNexus : Option Part
+  rawCon : Option Part
+  outNexus : Out
+  outCon : Out
+  portNexus : Bool           -- a PortStatus / FeaturesReceived event on the nexus
+  portCon : Bool             -- … on the connection
+  deriving DecidableEq, Repr
+
+/-- `if e is None or e.halt != True: con.raiseEventNoErrors(…)` — an exception of the handler body (`parts[0]`) happens before
+either raise and is not an event -/
+def secondRaise (halted : Bool) : Out → Out
+  | .event e => if halted then .quiet else .event e
+  | o => o
+
+def deliverL (c : Conn) (h : Halts) : Msg → Conn × StepL
+  | .port m =>
+    let v := PortView.step c.view m
+    ({ c with view := v }, ⟨none, none, .quiet, .quiet, true, !h.port⟩)
+  | .stats p =>
+    let rawCon := if h.raw then none else some p
+    let r := incoming c.pending p
+    ({ c with pending := r.1 }, ⟨some p, rawCon, r.2, secondRaise h.agg r.2, false, false⟩)
+  | .other => (c, ⟨none, none, .quiet, .quiet, false, false⟩)
+
+def runConnL (c : Conn) : List (Halts × Msg) → Conn × List StepL
+  | [] => (c, [])
+  | x :: xs =>
+    let r := deliverL c x.1 x.2
+    let rest := runConnL r.1 xs
+    (rest.1, r.2 :: rest.2)
+
 end Pox.StatsAgg
